@@ -52,12 +52,18 @@ Theorem C16_compat_iff_sub_unknown : forall a b,
 Proof. exact compat_iff_sub_unknown. Qed.
 Print Assumptions C16_compat_iff_sub_unknown.
 
+(* one direction needs no TypeVar guard: whatever the reference accepts, the code accepts (no false rejection) *)
+Theorem C16_compat_complete : forall a b, wf a = true -> wf b = true -> sub a b -> compat a b = true.
+Proof. exact compat_complete. Qed.
+Print Assumptions C16_compat_complete.
+
 (* as equality of the two functions: what the correspondence check evaluates on every case *)
 Theorem C16_compat_eq_subb : forall a b, wf a = true -> wf b = true -> notv a = true -> compat a b = subb a b.
 Proof. exact compat_eq_subb. Qed.
 Print Assumptions C16_compat_eq_subb.
 
-(* --- unions: a union source needs all members accepted, a union target needs one --- *)
+(* --- unions: a union source needs all members accepted, a union target needs one (TypeVars allowed;
+       `splits a` = a is a union or an annotated union, which is split member by member before the target) --- *)
 Theorem C16_compat_union_src : forall l b,
   wf (TUnion l) = true -> wf b = true -> compat (TUnion l) b = forallb (fun x => compat x b) l.
 Proof. exact compat_union_src. Qed.
@@ -78,15 +84,16 @@ Print Assumptions C16_compat_union_tgt_intro.
        spec_edges fs = the edges of the pipeline with their effective source type: the return annotation,
        wrapped in Array when the output is consumed through a MapSpec reduction.
        pipe_guard = annotations in normal form, no TypeVar in a return annotation (finding typevar-source-accepted),
-       no mapped function returning an object-array type (finding reduced-array-output-not-wrapped).
-       Full statements = the same without the last two conjuncts of pipe_guard; they are refuted on the real code
-       by the witnesses of known_findings.jsonl. --- *)
+       no mapped function returning an object-array type (finding reduced-array-output-not-wrapped);
+       pipe_guard_accept = pipe_guard without the TypeVar conjunct (acceptance needs no TypeVar guard).
+       Full statements = the same with only the normal-form conjunct; they are refuted on the real code by the
+       witnesses of known_findings.jsonl (replayed by the check on every run as KNOWN-FINDING). --- *)
 Theorem C16_validation_off_accepts_all : forall fs, construct fs false = Ok tt.
 Proof. exact validation_off_accepts_all. Qed.
 Print Assumptions C16_validation_off_accepts_all.
 
 Theorem C16_edges_ok_accepts_partial : forall fs,
-  pipe_guard fs = true ->
+  pipe_guard_accept fs = true ->
   (forall e, In e (spec_edges fs) -> sub (fst e) (snd e)) ->
   construct fs true = Ok tt.
 Proof. exact edges_ok_accepts. Qed.
@@ -105,6 +112,7 @@ Definition ex_reduce (b : ty) : list pfunc :=
     Fn (s "z") (TCls CInt) [(s "y", Some b)] None ].
 Example C16_pipeline_guard_nonvacuous :
   pipe_guard (ex_reduce (TArray (TUnion [TCls CInt; TCls CNone]))) = true
+  /\ pipe_guard_accept (ex_reduce (TArray (TUnion [TCls CInt; TCls CNone]))) = true
   /\ spec_edges (ex_reduce (TArray (TUnion [TCls CInt; TCls CNone])))
      = [(TArray (TUnion [TCls CBool; TCls CNone]), TArray (TUnion [TCls CInt; TCls CNone]))]
   /\ construct (ex_reduce (TArray (TUnion [TCls CInt; TCls CNone]))) true = Ok tt
